@@ -53,6 +53,7 @@ def run(ctx):
     check_stripws(ctx)
     check_stripws_simulation(ctx)
     check_reindent_simulation(ctx)
+    check_operator_simulation(ctx)
     # the serializer right-strips exactly the lines outside quoted text: its idea of a quoted region must agree with the lexer's
     check_serializer(ctx, 'R10.4', [r for r in SERIALIZER_REGIONS if r[0].startswith(('single-quoted', 'double-quoted'))])
     from .. import rules_base as RB
@@ -493,14 +494,14 @@ def _reindent_statements():
     return [o for o in out if o[1] is not None]
 
 
-def check_reindent_simulation(ctx):
+def check_reindent_simulation(ctx, rid='R10.10', option_sets=None, filter_name='ReindentFilter', clause_lines=True):
     """reindent decided on concrete statement trees: StripWhitespaceFilter.process then ReindentFilter.process (sources interpreted,
     with every helper and the offset/indent context managers), then the serializer's line handling.  Afterwards every clause
     keyword starts its own line, nothing but whitespace changed, the text has no leading whitespace and no line ends in a blank."""
     repo = ctx.repo
-    ctx.rule('R10.10', 'strip_whitespace + reindent interpreted on statement trees: every clause keyword starts its own line, significant tokens untouched', floor=1)
+    ctx.rule(rid, 'strip_whitespace + reindent interpreted on statement trees: every clause keyword starts its own line, significant tokens untouched', floor=1)
     cs = RF.filter_class(ctx, 'StripWhitespaceFilter')
-    cr = RF.filter_class(ctx, 'ReindentFilter')
+    cr = RF.filter_class(ctx, filter_name)
     fr = cr.methods['process']
     loc = f'{fr.mod.relpath}:{fr.node.lineno}'
     WSP, NL, DML, KW, NAME, PUN, CMP, INT = (TT(('Text', 'Whitespace')), TT(('Text', 'Whitespace', 'Newline')), TT(('Keyword', 'DML')), TT(('Keyword',)), TT(('Name',)),
@@ -541,7 +542,7 @@ def check_reindent_simulation(ctx):
         else:
             yield t
 
-    def new_filter(cls):
+    def new_filter(cls, **kw):
         init = repo.lookup_method(cls, '__init__')
         o = ME.Obj(_cls=cls)
         if init is not None:
@@ -550,6 +551,10 @@ def check_reindent_simulation(ctx):
             env = {init.params[0]: o}
             for p_, d_ in zip(init.params[len(init.params) - len(init.node.args.defaults):], init.node.args.defaults):
                 env[p_] = ev.ev(d_, {})
+            for k_, v_ in kw.items():
+                if k_ not in init.params:
+                    raise ME.Unsupported(f'{cls.name}.__init__ has no parameter {k_}')
+                env[k_] = v_
             ME.run_function(ev, init.node, env)
         return o
 
@@ -563,15 +568,18 @@ def check_reindent_simulation(ctx):
         ME.run_function(ev, f.node, env, max_steps=20000)
     bad = {}
     n = 0
-    for name, desc in _reindent_statements():
-        for upper in (False, True):
+    runs = [(name, desc, upper, {}) for name, desc in _reindent_statements() for upper in (False, True)]
+    for opts in (option_sets or []):
+        runs += [(f'{name} with {opts}', desc, False, opts) for name, desc in _reindent_statements()]
+    for name, desc, upper, opts in runs:
+        if True:
             st = group(classes['S'], build(desc, upper))
             before = [t for t in leaves(st) if not WSP.contains(t.ttype)]
             try:
                 apply(cs, new_filter(cs), st)
-                apply(cr, new_filter(cr), st)
+                apply(cr, new_filter(cr, **opts), st)
             except (ME.Unsupported, ME.Unknown) as e:
-                ctx.ob('R10.10', 'simulation', loc, 'strip_whitespace and reindent are evaluable on statement trees', None, f'{name}: {e}')
+                ctx.ob(rid, 'simulation', loc, 'strip_whitespace and reindent are evaluable on statement trees', None, f'{name}: {e}')
                 return
             except ME.Crash as e:
                 bad.setdefault('crash', []).append(f'{name}: {e}')
@@ -592,7 +600,7 @@ def check_reindent_simulation(ctx):
             for t in after:
                 if not WSP.contains(t.ttype):
                     word = ' '.join(t.value.upper().split())
-                    if KW.contains(t.ttype) and not first_sig and (word in CLAUSE_WORDS or word.endswith('JOIN')) and not (word == 'AND' and between):
+                    if clause_lines and KW.contains(t.ttype) and not first_sig and (word in CLAUSE_WORDS or word.endswith('JOIN')) and not (word == 'AND' and between):
                         line_start = raw.rfind('\n', 0, pos) + 1
                         if raw[line_start:pos].strip() != '' or (line_start == 0 and raw[:pos].strip() == '' and False):
                             bad.setdefault('a clause keyword does not start its own line', []).append(f'{name}: {t.value!r} in {text!r}')
@@ -606,7 +614,89 @@ def check_reindent_simulation(ctx):
                 pos += len(t.value)
     ctx.info['reindent_simulated_statements'] = n
     if not bad:
-        ctx.ob('R10.10', 'simulation', loc, f'{n} statement trees (select/from/where and-or, group/order/having/limit, joins, union, update-set, subquery, BETWEEN, '
+        ctx.ob(rid, 'simulation', loc, f'{n} statement trees (select/from/where and-or, group/order/having/limit, joins, union, update-set, subquery, BETWEEN, '
                'leading whitespace; lower and upper case): every clause keyword starts its own line, no token but whitespace changed', True)
     for why, items in sorted(bad.items()):
-        ctx.ob('R10.10', f'simulation:{why}', loc, f'strip_whitespace + reindent reach the normal form on {n} statement trees', False, f'{len(items)} case(s): {why}, e.g. {items[:2]}')
+        ctx.ob(rid, f'simulation:{why}', loc, f'strip_whitespace + reindent reach the normal form on {n} statement trees', False, f'{len(items)} case(s): {why}, e.g. {items[:2]}')
+
+
+def check_operator_simulation(ctx, rid='R10.11'):
+    """use_space_around_operators decided on concrete trees: SpacesAroundOperatorsFilter.process interpreted; afterwards every operator
+    and comparison token has whitespace on both sides (unless it starts or ends its list), and only whitespace was added."""
+    import itertools
+    repo = ctx.repo
+    ctx.rule(rid, 'SpacesAroundOperatorsFilter.process interpreted on small trees: whitespace on both sides of every operator / comparison token, nothing else changed', floor=1)
+    c = RF.filter_class(ctx, 'SpacesAroundOperatorsFilter')
+    f = c.methods['process']
+    loc = f'{f.mod.relpath}:{f.node.lineno}'
+    WSP, NAME, OPR, CMP, INT = TT(('Text', 'Whitespace')), TT(('Name',)), TT(('Operator',)), TT(('Operator', 'Comparison')), TT(('Literal', 'Number', 'Integer'))
+    classes = {k: repo.classes.get(f'sqlparse.sql.{v}') for k, v in (('S', 'Statement'), ('O', 'Operation'), ('C', 'Comparison'), ('I', 'Identifier'), ('P', 'Parenthesis'))}
+    ctx.need(all(classes.values()), 'sqlparse.sql classes not found')
+    mk = {'x': (NAME, 'x'), '1': (INT, '1'), '+': (OPR, '+'), '*': (OPR, '*'), '=': (CMP, '='), '<=': (CMP, '<='), 'w': (WSP, ' '), 'n': (WSP, '\n')}
+
+    def build(desc):
+        out = []
+        for d in desc:
+            if isinstance(d, str):
+                t_ = ME.AbsToken(repo, ttype=mk[d][0], value=mk[d][1])
+                t_.parent = None
+            else:
+                t_ = group(classes[d[0]], build(d[1]))
+            out.append(t_)
+        return out
+
+    def group(cls, kids):
+        g = ME.AbsToken(repo, cls=cls)
+        g.tokens, g.parent, g.is_whitespace = kids, None, False
+        g.value = ''.join(k.value for k in kids)
+        for k in kids:
+            k.parent = g
+        return g
+
+    def leaves(t):
+        if t.is_group:
+            for k in t.tokens:
+                yield from leaves(k)
+        else:
+            yield t
+    shapes = []
+    for op in ('+', '*', '=', '<='):
+        for l_, r_ in itertools.product(([], ['w'], ['n'], ['w', 'w']), repeat=2):
+            grp = 'C' if op in ('=', '<=') else 'O'
+            shapes.append([('I', ['x']), 'w', (grp, [('I', ['x'])] + l_ + [op] + r_ + ['1'])])
+            shapes.append([(grp, [(grp if grp == 'O' else 'O', [('I', ['x']), '+', '1'])] + l_ + [op] + r_ + [('I', ['x'])])])
+    shapes.append([('O', [('I', ['x']), '+', ('I', ['x']), '*', '1'])])
+    shapes.append([('I', ['x']), '=', '1'])
+    bad = {}
+    n = 0
+    for shape in shapes:
+        st = group(classes['S'], build(shape))
+        before = [t for t in leaves(st) if not WSP.contains(t.ttype)]
+        ws_before = [t for t in leaves(st) if WSP.contains(t.ttype)]
+        ev = ME.Evaluator(ctx, f.mod, c)
+        ev.effects = True
+        try:
+            ME.run_function(ev, f.node, {f.params[0]: ME.Obj(_cls=c), f.params[1]: st}, max_steps=5000)
+        except (ME.Unsupported, ME.Unknown) as e:
+            ctx.ob(rid, 'simulation', loc, 'use_space_around_operators is evaluable on small trees', None, str(e))
+            return
+        except ME.Crash as e:
+            bad.setdefault('crash', []).append(str(e))
+            continue
+        n += 1
+        after = list(leaves(st))
+        sig = [t for t in after if not WSP.contains(t.ttype)]
+        text = ''.join(t.value for t in after)
+        if len(sig) != len(before) or any(a is not b for a, b in zip(sig, before)) or any(not any(w is x for x in after) for w in ws_before):
+            bad.setdefault('a token is lost, added or moved', []).append(text)
+            continue
+        for i, t in enumerate(after):
+            if OPR.contains(t.ttype):
+                left_ok = i == 0 or (WSP.contains(after[i - 1].ttype) and after[i - 1].value != '')
+                right_ok = i == len(after) - 1 or (WSP.contains(after[i + 1].ttype) and after[i + 1].value != '')
+                if not (left_ok and right_ok):
+                    bad.setdefault('an operator lacks whitespace on one side', []).append(f'{t.value!r} in {text!r}')
+    if not bad:
+        ctx.ob(rid, 'simulation', loc, f'{n} trees (+ * = <= inside Operation / Comparison groups, with and without whitespace around them, nested): spaced on both sides, nothing else changed', True)
+    for why, items in sorted(bad.items()):
+        ctx.ob(rid, f'simulation:{why}', loc, f'use_space_around_operators reaches its normal form on {n} small trees', False, f'{len(items)} case(s): {why}, e.g. {items[:3]}')
